@@ -250,10 +250,112 @@ pub fn generate(seed: u64, tier: Tier) -> Case {
         }
     }
 
-    let nbuilds = if rng.chance(1, 4) { 2 } else { 1 };
+    // Rebuild history: the project changes (items and modules come and go) and is built again
+    // into the output directory the first build left behind.
+    let mut worlds = vec![world];
+    let mut chain = vec![];
+    if params.collision.is_none() && rng.chance(1, 3) {
+        let mut p2 = p.clone();
+        for _ in 0..rng.range(1, 3) {
+            match rng.below(4) {
+                0 => {
+                    // Drop items nobody mentions.
+                    let mut mentioned = BTreeSet::new();
+                    for m in 0..p2.modules.len() {
+                        mentioned.extend(p2.mentioned_items(m));
+                    }
+                    let free: Vec<usize> = (0..p2.items.len())
+                        .filter(|i| !mentioned.contains(i))
+                        .collect();
+                    if !free.is_empty() {
+                        let i = *rng.pick(&free);
+                        let m = p2.items[i].module;
+                        p2.modules[m]
+                            .order
+                            .retain(|d| *d != Decl::Item(i) && *d != Decl::Impl(i));
+                    }
+                }
+                1 => {
+                    // Drop backend blocks and extern values of a module.
+                    let m = rng.below(p2.modules.len());
+                    p2.modules[m]
+                        .order
+                        .retain(|d| !matches!(d, Decl::Backend(_) | Decl::ExternValue(_)));
+                    p2.modules[m].doc = None;
+                }
+                2 => {
+                    // A module nobody uses disappears.
+                    let used: BTreeSet<usize> = (0..p2.modules.len())
+                        .flat_map(|m| {
+                            p2.mentioned_items(m)
+                                .into_iter()
+                                .map(|i| p2.items[i].module)
+                                .filter(move |t| *t != m)
+                                .collect::<Vec<_>>()
+                        })
+                        .collect();
+                    let free: Vec<usize> = (0..p2.modules.len())
+                        .filter(|m| !used.contains(m) && !p2.modules[*m].deleted)
+                        .collect();
+                    if free.len() >= 1 && p2.modules.iter().filter(|m| !m.deleted).count() > 1 {
+                        let m = *rng.pick(&free);
+                        p2.modules[m].deleted = true;
+                    }
+                }
+                _ => {
+                    // Something new.
+                    let m = rng.below(p2.modules.len());
+                    if !p2.modules[m].deleted {
+                        let idx = p2.items.len();
+                        p2.items.push(Item {
+                            module: m,
+                            name: format!("Added{idx}"),
+                            vis: true,
+                            doc: None,
+                            kind: ItemKind::Type {
+                                fields: vec![field("a", Ty::Prim("u8").arr(rng.range(1, 600)))],
+                                vftable: None,
+                                size: None,
+                                align: None,
+                                packed: false,
+                                flags: Flags::default(),
+                                singleton: None,
+                                impl_funcs: vec![],
+                                semicolon_form: false,
+                            },
+                            csize: 0,
+                            calign: 1,
+                            vslots: None,
+                        });
+                        p2.modules[m].order.push(Decl::Item(idx));
+                    }
+                }
+            }
+        }
+        let mut w2 = worlds[0].clone();
+        w2.input.retain(|n| !matches!(n, Node::File { path, .. } if path.ends_with(".pyxis") && !path.contains(".v")));
+        for (path, text) in p2.files() {
+            w2.input.push(Node::File {
+                path,
+                content: Blob::text(text),
+            });
+        }
+        worlds.push(w2);
+        chain.push((1usize, 0usize));
+        params.notes.push("env:rebuild_into_previous_output".into());
+    }
+    params.chain = chain.clone();
+    let nbuilds = if !chain.is_empty() {
+        2
+    } else if rng.chance(1, 4) {
+        2
+    } else {
+        1
+    };
+    let chained = !chain.is_empty();
     let builds = (0..nbuilds)
-        .map(|_| BuildSpec {
-            world: 0,
+        .map(|k| BuildSpec {
+            world: if chained { k } else { 0 },
             entry: Entry::LibBuild,
             sched: SchedSpec {
                 unresolved: match rng.below(3) {
@@ -270,7 +372,7 @@ pub fn generate(seed: u64, tier: Tier) -> Case {
         property: "C14".into(),
         family: family.into(),
         seed,
-        worlds: vec![world],
+        worlds,
         builds,
         params,
     }
@@ -285,8 +387,8 @@ fn items_of(text: &str) -> Result<Vec<String>, String> {
 }
 
 /// Checks one accepted build against what the world declares.
-fn check_build(case: &Case, r: &RunResult) -> Result<(), (String, String)> {
-    let world = &case.worlds[0];
+fn check_build(case: &Case, w: usize, r: &RunResult) -> Result<(), (String, String)> {
+    let world = &case.worlds[w];
     let parsed = parse_world(world).map_err(|e| ("vacuous".to_string(), e))?;
 
     // Expected file set.
@@ -551,27 +653,32 @@ pub fn evaluate(case: &Case, results: &[Vec<RunResult>], report: &mut CaseReport
     }
     // Collisions are read off the world itself (so that a minimised or hand-written replay is
     // judged by what it contains, not by what the generator meant).
-    let collision: Option<String> = match parse_world(&case.worlds[0]) {
-        Err(e) => return Verdict::Vacuous(format!("world does not parse: {e}")),
-        Ok(parsed) => {
-            let model = crate::model::Model::build(&parsed);
-            let mut c = model.duplicates.first().map(|d| format!("duplicate item `{d}`"));
-            for (_, mpath, m) in &parsed.modules {
-                let mut seen = BTreeSet::new();
-                for ev in &m.extern_values {
-                    if !seen.insert(ev.name.as_str()) {
-                        c = Some(format!(
-                            "duplicate extern value `{}` in `{mpath}`",
-                            ev.name.as_str()
-                        ));
+    let mut collisions: Vec<Option<String>> = vec![];
+    for world in &case.worlds {
+        let c = match parse_world(world) {
+            Err(e) => return Verdict::Vacuous(format!("world does not parse: {e}")),
+            Ok(parsed) => {
+                let model = crate::model::Model::build(&parsed);
+                let mut c = model.duplicates.first().map(|d| format!("duplicate item `{d}`"));
+                for (_, mpath, m) in &parsed.modules {
+                    let mut seen = BTreeSet::new();
+                    for ev in &m.extern_values {
+                        if !seen.insert(ev.name.as_str()) {
+                            c = Some(format!(
+                                "duplicate extern value `{}` in `{mpath}`",
+                                ev.name.as_str()
+                            ));
+                        }
                     }
                 }
+                c
             }
-            c
-        }
-    };
+        };
+        collisions.push(c);
+    }
     let mut any_effect = false;
     for (bi, reps) in results.iter().enumerate() {
+        let collision = &collisions[case.builds[bi].world];
         for r in reps {
             match &r.outcome {
                 Outcome::Panic { message, location } => {
@@ -597,13 +704,13 @@ pub fn evaluate(case: &Case, results: &[Vec<RunResult>], report: &mut CaseReport
                             format!("build {bi}: changed outside the output directory: {:?}", r.elsewhere),
                         );
                     }
-                    if let Some(c) = &collision {
+                    if let Some(c) = collision {
                         return Verdict::violation(
                             "collision-accepted",
                             format!("build {bi} succeeded although the world contains a {c}"),
                         );
                     }
-                    match check_build(case, r) {
+                    match check_build(case, case.builds[bi].world, r) {
                         Ok(()) => {
                             report.count("oracle:inventory_checked", 1);
                             any_effect = true;
@@ -620,7 +727,7 @@ pub fn evaluate(case: &Case, results: &[Vec<RunResult>], report: &mut CaseReport
         }
     }
     if any_effect
-        && (!case.params.notes.is_empty() || collision.is_some())
+        && (!case.params.notes.is_empty() || collisions.iter().any(|c| c.is_some()))
         && case.worlds[0].module_files().len() >= 1
     {
         report.set("nontrivial_c14", case.worlds[0].digest());
